@@ -80,14 +80,14 @@ def parse_natlist(out):
     body = m.group(1).strip()
     if not body:
         return []
-    return [int(x) for x in body.replace("\n", " ").split(";") if x.strip()]
+    return [int(x.replace("%nat", "").strip()) for x in body.replace("\n", " ").split(";") if x.strip()]
 
 
 def parse_pairlist(out):
     m = re.search(r"=\s*\[(.*?)\]\s*:\s*list", out, flags=re.S)
     if not m:
         return None
-    return [(int(a), int(b)) for a, b in re.findall(r"\((\d+)\s*,\s*(\d+)\)", m.group(1))]
+    return [(int(a), int(b)) for a, b in re.findall(r"\((\d+)(?:%nat)?\s*,\s*(\d+)(?:%nat)?\)", m.group(1))]
 
 
 # ------------------------------------------------------------------ matrices with a controlled spectrum
